@@ -150,7 +150,10 @@ theorem guard_sees_the_location_the_writes_use :
     tildeBeforeGuard writeDicts "geff_store" "call:write_arrays" = true ∧ storeArgsAre writeDicts "geff_store" = true ∧
     tildeBeforeGuard fromCtc "geff_path" "call:check_for_geff" = true ∧ storeArgsAre fromCtc "geff_path" = true ∧
     tildeBeforeGuard fromTrackmate "geff_path" "call:_preliminary_checks" = true ∧
-    storeArgsAre fromTrackmate "geff_path" = true ∧ storeArgsAre preliminaryChecks "geff_path" = true := by
+    storeArgsAre fromTrackmate "geff_path" = true ∧ storeArgsAre preliminaryChecks "geff_path" = true ∧
+    -- the converters normalise the output name to `<name>.geff` before the guard, once
+    suffixBeforeGuard fromCtc "geff_path" "call:check_for_geff" = true ∧
+    suffixBeforeGuard fromTrackmate "geff_path" "call:_preliminary_checks" = true := by
   decide +kernel
 
 /-- the converters: guard before the segmentation array and before `write_arrays` / `NxBackend.write`,
